@@ -462,6 +462,8 @@ func cfgs(tier string) []config {
 	return c
 }
 
+const scope = "for every enumerated configuration: every save position k in 0..len(R)+1 (crash after every Next, before the first, after exhaustion)"
+
 func main() {
 	driver.Main(&driver.Spec{
 		Property: "C04",
@@ -478,9 +480,9 @@ func main() {
 		Stubs: []string{"io.Writer / io.Reader (simulated disk)", "the process owning the iterator (crash = abandon the value)", "pruning predicates"},
 		Plan: func(tier string) driver.Plan {
 			if tier == "thorough" {
-				return driver.Plan{Enum: len(cfgs(tier)), Random: 300000, Exhaustive: true, WallLimit: 40 * time.Minute}
+				return driver.Plan{Enum: len(cfgs(tier)), Random: 300000, Exhaustive: true, WallLimit: 40 * time.Minute, ExhaustiveScope: scope}
 			}
-			return driver.Plan{Enum: len(cfgs(tier)), Random: 20000, Exhaustive: true, WallLimit: 6 * time.Minute}
+			return driver.Plan{Enum: len(cfgs(tier)), Random: 20000, Exhaustive: true, WallLimit: 6 * time.Minute, ExhaustiveScope: scope}
 		},
 		RunOne: func(r *driver.Run) {
 			e := &eng{r: r}
